@@ -160,6 +160,20 @@ def _check(prop, tier, seed, replay, t0, workdir, known, violations, broken):
     # ---------------- replay mode ----------------
     if replay:
         obj = json.load(open(replay))
+        if obj.get("extra_check"):
+            # a violation found by an extra check (directed sweep): run the sweeps again
+            vlib.coq_make(prop.coq_targets)
+            totals = dict(evaluations=0, classes={}, distinct=set(), samples=[], stats={})
+            bad = False
+            for chk in prop.extra_checks:
+                for (kind, detail, robj) in chk(dict(prop=prop, tier=tier, seed=seed, workdir=workdir, totals=totals)):
+                    print("FAIL", kind, detail[:1500])
+                    bad = True
+            if bad:
+                print("VIOLATION property=%s replay=%s" % (pid, replay))
+                return 1
+            print("replay passes")
+            return 0
         eng = [e for e in prop.engines if e.name == obj.get("engine")]
         if not eng or "case" not in obj:
             print("replay file names no runnable case (%s)" % obj.get("broken", "?"))
